@@ -22,32 +22,38 @@ type c17Shape struct {
 	name  string
 	rules string
 	nrule int
+	// diverges is set for shapes outside the reference fragment (merge predicates) whose divergence is known statically
+	diverges bool
 }
+
+const c17MergeDecls = "Decl cost(K, V) descr [fundep([K], [V]), merge([V], \"minv\")].\nDecl minv(A, B, C) descr [mode('+', '+', '-'), deferred()].\nminv(A, B, C) :- A < B, C = A.\nminv(A, B, C) :- B <= A, C = B.\n"
 
 const c17Decls = "Decl n0(A).\nDecl l0(A).\n"
 
 var c17Shapes = []c17Shape{
-	{"counter", "n(X) :- n0(X).\nn(Y) :- n(X), Y = fn:plus(X, 1).\n", 2},
-	{"guarded-2", "n(X) :- n0(X).\nn(Y) :- n(X), X < 2, Y = fn:plus(X, 1).\n", 2},
-	{"guarded-5", "n(X) :- n0(X).\nn(Y) :- n(X), X < 5, Y = fn:plus(X, 1).\n", 2},
-	{"guarded-9", "n(X) :- n0(X).\nn(Y) :- n(X), X < 9, Y = fn:plus(X, 1).\n", 2},
-	{"list-growth", "l(X) :- l0(X).\nl(Y) :- l(X), Y = fn:list:cons(1, X).\n", 2},
-	{"list-guarded", "l(X) :- l0(X).\nl(Y) :- l(X), N = fn:list:len(X), N < 3, Y = fn:list:cons(1, X).\n", 2},
-	{"pair-nesting", "m(X) :- n0(X).\nm(Y) :- m(X), Y = fn:pair(X, X).\n", 2},
-	{"let-counter", "n(X) :- n0(X).\nn(Y) :- n(X) |> let Y = fn:plus(X, 1).\n", 2},
-	{"let-guarded", "n(X) :- n0(X).\nn(Y) :- n(X), X < 4 |> let Y = fn:plus(X, 1).\n", 2},
-	{"wide-join", "w(X,Y,Z) :- n0(X), n0(Y), n0(Z).\n", 1},
-	{"wide-join-filtered", "w(X) :- n0(X), n0(Y), n0(Z), X < Y, Y < Z.\n", 1},
-	{"below-negation", "big(X) :- n0(X).\nbig(Y) :- big(X), Y = fn:plus(X, 1).\nok(X) :- n0(X), !big(X).\n", 3},
-	{"feeds-aggregation", "n(X) :- n0(X).\nn(Y) :- n(X), Y = fn:plus(X, 1).\nc(N) :- n(X) |> do fn:group_by(), let N = fn:count().\n", 3},
-	{"guarded-feeds-aggregation", "n(X) :- n0(X).\nn(Y) :- n(X), X < 5, Y = fn:plus(X, 1).\nc(N) :- n(X) |> do fn:group_by(), let N = fn:count().\n", 3},
-	{"doubling-wraps", "d(X) :- n0(X).\nd(Y) :- d(X), X > 0, Y = fn:mult(X, 2).\n", 2},
-	{"product-of-guarded", "n(X) :- n0(X).\nn(Y) :- n(X), X < 3, Y = fn:plus(X, 1).\nk(X,Y) :- n(X), n(Y).\n", 3},
-	{"mutual-counters", "a(X) :- n0(X).\na(Y) :- b(X), Y = fn:plus(X, 1).\nb(Y) :- a(X), Y = fn:plus(X, 1).\n", 3},
-	{"mutual-guarded", "a(X) :- n0(X).\na(Y) :- b(X), X < 6, Y = fn:plus(X, 1).\nb(Y) :- a(X), X < 6, Y = fn:plus(X, 1).\n", 3},
-	{"two-step", "n(X) :- n0(X).\nn(Y) :- n(X), Y = fn:plus(X, 2).\nn(Y) :- n(X), X < 4, Y = fn:plus(X, 1).\n", 3},
-	{"fan-out", "f(X,Y) :- n0(X), n0(Y).\nf(X,Z) :- f(X,Y), Z = fn:plus(Y, 1).\n", 2},
-	{"fan-out-guarded", "f(X,Y) :- n0(X), n0(Y).\nf(X,Z) :- f(X,Y), Y < 4, Z = fn:plus(Y, 1).\n", 2},
+	{"counter", "n(X) :- n0(X).\nn(Y) :- n(X), Y = fn:plus(X, 1).\n", 2, false},
+	{"guarded-2", "n(X) :- n0(X).\nn(Y) :- n(X), X < 2, Y = fn:plus(X, 1).\n", 2, false},
+	{"guarded-5", "n(X) :- n0(X).\nn(Y) :- n(X), X < 5, Y = fn:plus(X, 1).\n", 2, false},
+	{"guarded-9", "n(X) :- n0(X).\nn(Y) :- n(X), X < 9, Y = fn:plus(X, 1).\n", 2, false},
+	{"list-growth", "l(X) :- l0(X).\nl(Y) :- l(X), Y = fn:list:cons(1, X).\n", 2, false},
+	{"list-guarded", "l(X) :- l0(X).\nl(Y) :- l(X), N = fn:list:len(X), N < 3, Y = fn:list:cons(1, X).\n", 2, false},
+	{"pair-nesting", "m(X) :- n0(X).\nm(Y) :- m(X), Y = fn:pair(X, X).\n", 2, false},
+	{"let-counter", "n(X) :- n0(X).\nn(Y) :- n(X) |> let Y = fn:plus(X, 1).\n", 2, false},
+	{"let-guarded", "n(X) :- n0(X).\nn(Y) :- n(X), X < 4 |> let Y = fn:plus(X, 1).\n", 2, false},
+	{"wide-join", "w(X,Y,Z) :- n0(X), n0(Y), n0(Z).\n", 1, false},
+	{"wide-join-filtered", "w(X) :- n0(X), n0(Y), n0(Z), X < Y, Y < Z.\n", 1, false},
+	{"below-negation", "big(X) :- n0(X).\nbig(Y) :- big(X), Y = fn:plus(X, 1).\nok(X) :- n0(X), !big(X).\n", 3, false},
+	{"feeds-aggregation", "n(X) :- n0(X).\nn(Y) :- n(X), Y = fn:plus(X, 1).\nc(N) :- n(X) |> do fn:group_by(), let N = fn:count().\n", 3, false},
+	{"guarded-feeds-aggregation", "n(X) :- n0(X).\nn(Y) :- n(X), X < 5, Y = fn:plus(X, 1).\nc(N) :- n(X) |> do fn:group_by(), let N = fn:count().\n", 3, false},
+	{"doubling-wraps", "d(X) :- n0(X).\nd(Y) :- d(X), X > 0, Y = fn:mult(X, 2).\n", 2, false},
+	{"product-of-guarded", "n(X) :- n0(X).\nn(Y) :- n(X), X < 3, Y = fn:plus(X, 1).\nk(X,Y) :- n(X), n(Y).\n", 3, false},
+	{"mutual-counters", "a(X) :- n0(X).\na(Y) :- b(X), Y = fn:plus(X, 1).\nb(Y) :- a(X), Y = fn:plus(X, 1).\n", 3, false},
+	{"mutual-guarded", "a(X) :- n0(X).\na(Y) :- b(X), X < 6, Y = fn:plus(X, 1).\nb(Y) :- a(X), X < 6, Y = fn:plus(X, 1).\n", 3, false},
+	{"two-step", "n(X) :- n0(X).\nn(Y) :- n(X), Y = fn:plus(X, 2).\nn(Y) :- n(X), X < 4, Y = fn:plus(X, 1).\n", 3, false},
+	{"fan-out", "f(X,Y) :- n0(X), n0(Y).\nf(X,Z) :- f(X,Y), Z = fn:plus(Y, 1).\n", 2, false},
+	{"merge-predicate-new-key-each-round", c17MergeDecls + "cost(X, 0) :- n0(X).\ncost(Y, V) :- cost(X, W), Y = fn:plus(X, 1), V = fn:plus(W, 1).\n", 4, true},
+	{"merge-predicate-two-step", c17MergeDecls + "cost(X, 0) :- n0(X).\ncost(Y, V) :- cost(X, W), Y = fn:plus(X, 2), V = fn:plus(W, 1).\ncost(Y, V) :- cost(X, W), Y = fn:plus(X, 3), V = fn:plus(W, 5).\n", 5, true},
+	{"fan-out-guarded", "f(X,Y) :- n0(X), n0(Y).\nf(X,Z) :- f(X,Y), Y < 4, Z = fn:plus(Y, 1).\n", 2, false},
 }
 
 var c17Seeds = [][]string{{"n0(0)", "l0([])"}, {"n0(0)", "n0(1)", "l0([])"}, {"n0(0)", "n0(1)", "n0(2)", "l0([])", "l0([5])"}}
@@ -55,6 +61,7 @@ var c17Limits = []int{1, 2, 3, 4, 5, 6, 7, 8, 9, 10, 11, 12, 16, 32, 100}
 var c17Stores = []string{"multiarray", "merged", "simple"}
 
 type c17Case struct {
+	diverges bool
 	src    string
 	nrules int
 	name   string
@@ -80,7 +87,7 @@ func c17Cases(thorough bool) []c17Case {
 					lines = append(lines, l)
 				}
 			}
-			progs = append(progs, c17Shape{c17Shapes[i].name + "+" + c17Shapes[j].name, strings.Join(lines, "\n") + "\n", len(lines)})
+			progs = append(progs, c17Shape{c17Shapes[i].name + "+" + c17Shapes[j].name, strings.Join(lines, "\n") + "\n", len(lines), c17Shapes[i].diverges || c17Shapes[j].diverges})
 		}
 	}
 	var out []c17Case
@@ -91,7 +98,7 @@ func c17Cases(thorough bool) []c17Case {
 					if !thorough && si == 2 {
 						continue
 					}
-					out = append(out, c17Case{c17Decls + p.rules, p.nrule, p.name, seed, l, st})
+					out = append(out, c17Case{p.diverges, c17Decls + p.rules, p.nrule, p.name, seed, l, st})
 				}
 			}
 		}
@@ -126,7 +133,13 @@ func c17Run(c c17Case) rt.CaseResult {
 	}
 	// evaluate list syntax in seeds
 	edb = evalGround(c.seed)
-	ref, rerr := oracle.Eval(pp.clauses, edb, oracle.Config{MaxRounds: 80, MaxFacts: 1500})
+	var ref *oracle.Result
+	var rerr error
+	if c.diverges {
+		rerr = oracle.ErrDiverged // statically known (merge predicates are outside the reference fragment)
+	} else {
+		ref, rerr = oracle.Eval(pp.clauses, edb, oracle.Config{MaxRounds: 80, MaxFacts: 1500})
+	}
 	converges := rerr == nil
 	if rerr != nil && !errors.Is(rerr, oracle.ErrDiverged) {
 		if errors.Is(rerr, oracle.ErrUnsupported) {
@@ -205,11 +218,11 @@ func c17(r *rt.Run) {
 		"convergence is decided by the reference evaluator with caps (80 rounds / 1500 facts); pool D programs either converge well below the caps or grow without bound",
 		"'bounded by a function of the limit and the program size' is instantiated as created <= 4*(L+1)*(rules+1)+8",
 		"an error on a converging program (model larger than the limit, or a join wider than the limit) is correct behaviour and not an alarm",
-		"each case runs in a killable worker process under ulimit -v; a case that does not answer within 60 s is re-run twice alone before 'did not return' is reported",
+		"each case runs in a killable worker process under ulimit -v; a case that does not answer within 20 s (normal: < 1 s) is re-run once alone before 'did not return' is reported; after 6 such cases the run stops early",
 	}
 	if r.Replay != "" {
 		_, w := rt.ReadReplay(r.Replay)
-		c := c17Case{fmt.Sprint(w["source"]), 3, fmt.Sprint(w["program"]), toStrings(w["seed"]), int(w["limit"].(float64)), fmt.Sprint(w["store"])}
+		c := c17Case{strings.Contains(fmt.Sprint(w["source"]), "merge("), fmt.Sprint(w["source"]), 3, fmt.Sprint(w["program"]), toStrings(w["seed"]), int(w["limit"].(float64)), fmt.Sprint(w["store"])}
 		res := c17Run(c)
 		for _, v := range res.Violations {
 			r.Violate(v.Kind, v.Detail, v.Witness)
@@ -218,7 +231,8 @@ func c17(r *rt.Run) {
 	}
 	cases := c17Cases(r.Thorough())
 	r.Extra["cases_enumerated"] = len(cases)
-	rt.RunSharded(r, len(cases), []string{"C17", "worker", r.Tier}, 60*time.Second, 6000000, func(idx int, label, how string) {
+	rt.ConfirmRuns = 1
+	rt.RunSharded(r, len(cases), []string{"C17", "worker", r.Tier}, 20*time.Second, 6000000, func(idx int, label, how string) {
 		c := cases[idx]
 		r.Violate("did-not-return", fmt.Sprintf("[%s] evaluation with a fact limit did not return: %s", label, how),
 			map[string]any{"program": c.name, "source": c.src, "seed": c.seed, "limit": c.limit, "store": c.store})
